@@ -359,6 +359,6 @@ def enumerate_configs(tier: str, i: int, n: int) -> Iterator[dict]:
 
 STREAMS = {
     "grid": Stream("grid", oracle=oracle, enumerate=enumerate_grid, exhaustive=True, shards_quick=16, shards_thorough=16),
-    "random": Stream("random", oracle=oracle, strategy=strategy_random, quick=3000, thorough=100000, shards_quick=4, shards_thorough=16),
+    "random": Stream("random", oracle=oracle, strategy=strategy_random, quick=3000, thorough=60000, shards_quick=4, shards_thorough=16),
     "configs": Stream("configs", oracle=oracle_config, enumerate=enumerate_configs, exhaustive=True, shards_quick=1, shards_thorough=1),
 }
